@@ -257,6 +257,57 @@ class Sched(Part):
         return Outcome(viol, labels, first and not info['stalled'])
 
 
+@st.composite
+def fixture_cases(draw):
+    """a suite-like test object that is not a TestSuite (the runner calls it as one test, unittest's suite machinery and
+    its class fixtures run inside): the first problem is a class fixture that raises - recorded outside any
+    startTest/stopTest bracket - and test classes follow inside the same object and after it"""
+    def tests(prefix, n):
+        return [{'n': 'test_%s%d' % (prefix, i), 'k': 'pass'} for i in range(n)]
+    inner = []
+    nbefore = draw(st.integers(0, 2))
+    for i in range(nbefore):
+        inner.append({'t': 'c', 'name': 'TCok%d' % i, 'tests': tests('o', draw(st.integers(1, 2)))})
+    inner.append({'t': 'c', 'name': 'TCbroken', 'tests': tests('b', draw(st.integers(1, 2))),
+                  'class_error': draw(st.sampled_from(['ValueError', 'KeyError', 'AssertionError']))})
+    for i in range(draw(st.integers(1, 2))):
+        inner.append({'t': 'c', 'name': 'TCafter%d' % i, 'tests': tests('a', draw(st.integers(1, 2)))})
+    ch = [{'t': 's', 'wrap': 'suitelike', 'name': 'SL', 'ch': inner}]
+    if draw(st.booleans()):
+        ch.append({'t': 'c', 'name': 'TClast', 'tests': tests('l', 1)})
+    if draw(st.booleans()):
+        ch.insert(0, {'t': 'c', 'name': 'TCfirst', 'tests': tests('f', 1)})
+    return {'spec': {'layers': [], 'modules': [{'name': 'a', 'tree': {'t': 's', 'ch': ch}}]},
+            'opts': {'stop': True, 'verbose': draw(st.integers(0, 2)), 'buffer': draw(st.booleans())}}
+
+
+class Fixtures(Part):
+    name = 'fixtures'
+    examples = {'quick': 320, 'thorough': 4000}
+
+    def strategy(self, tier):
+        return fixture_cases()
+
+    def execute(self, case):
+        spec = common.with_prefix(case['spec'])
+        run = drive.run_inproc(spec, common.args_of(case['opts']))
+        viol = common.run_escaped(run, 'C16')
+        seen = False
+        after = None
+        for e in run.trace:
+            if e['ev'] == 'class_fixture_error':
+                seen = True
+            elif seen and e['ev'] == 'T' and e['ph'] == 'setUp' and after is None:
+                after = e['id']
+        if run.exc is None:
+            if after is not None:
+                viol.append(('C16/test-started-after-failure', 'test %s started after the class fixture of TCbroken had '
+                             'raised (recorded as an error) under --stop-on-error' % after.replace(spec['mp'], '')))
+            if seen and run.failed is not True:
+                viol.append(('C16/verdict-not-failed', 'a class fixture raised but the verdict is %r' % run.failed))
+        return Outcome(viol, ['class-fixture-error' if seen else 'fixture-not-reached'], seen)
+
+
 class C16(Prop):
     id = 'C16'
     registered = True
@@ -274,7 +325,7 @@ class C16(Prop):
             'started and fewer tests started than were selected (something was really cut off).')
     assumptions = ('for -j N runs only the per-process clause is checked; runs whose layers are resumed one after the other '
                    'in subprocesses are sequential runs: no layer may be set up after the first failure in any process',)
-    parts = (InProc(), Procs(), ImportErrors(), Sched())
+    parts = (InProc(), Procs(), ImportErrors(), Sched(), Fixtures())
 
 
 PROP = C16()
